@@ -29,6 +29,7 @@ LEVEL_TEXT = (
     "allele swap (all index pairs, forward and reverse) is checked for detailed balance against the same joint. "
     "Observed executions only; pedigree shapes beyond the listed scenarios are not covered."
 )
+LEVEL_TEXT += " Session 3: an orchestration kind - mcmc_sampler.py_func with compound_step / pair_allele_swap_step replaced by recorders around the real compiled moves on multi-family pedigrees: every swap's Markov blanket must cover both parents and all children of either, the children matrix must be the pedigree's, the recorded trace must be the state left by the last move."
 LEVEL_NOTE = "Trusts the brute-force inheritance oracle (vlib/oracles/pedigree.py, cross-checked against the kernels in C17) and the independent likelihood oracle."
 RULE = (
     "case = one (pedigree instance, joint state, individual, allele position, move type) vector or one swap (state, pair, index_p, index_q); "
